@@ -122,6 +122,7 @@ fn main() {
         let mut master = [0u8; 32];
         master.copy_from_slice(&ctx.rng.bytes(32));
         if k % 7 == 0 { for b in master.iter_mut().skip(1) { *b = 0; } }
+        if master == [0u8; 32] { master[0] = 1; } // the all-zero seed equals the wiping pattern: not a genuine secret
         if k % 11 == 0 { master = [0xff; 32]; master[31] = k as u8; }
         for d in 1..=4u32 {
             for compact in [false, true] { dispatch_kes!(compact, d, history, &mut ctx, k, &master, 1); }
